@@ -76,15 +76,26 @@ class BoundedCheck:
         res = BoundedResult(self.name, self.bound_thorough if tier == 'thorough' else self.bound_quick)
         t0 = time.time()
         seen_sigs: Dict[str, int] = {}
+        limit = float(getattr(self, 'case_timeout_s', 0) or __import__('os').environ.get('VERIF_CASE_TIMEOUT_S', '30'))
+        slow = 0
         for case in self.cases(tier, seed):
             res.evaluations += 1
+            t_case = time.time()
             vs = self.guarded_check(case, res)
+            if time.time() - t_case > 0.9 * limit:
+                # a case that ran into the per-case limit: it is reported; going on would spend the limit again on every similar case
+                slow += 1
+                if not vs:
+                    vs = [Violation('the operation terminates (a small input is dealt with in well under a second on the unchanged library)', f'{self.name}.does-not-terminate',
+                                    case, f'< {limit:g} s', f'{time.time() - t_case:.0f} s')]
             if len(res.samples) < 5:
                 res.samples.append(_j(case))
             for v in vs:
                 seen_sigs[v.sig] = seen_sigs.get(v.sig, 0) + 1
                 if seen_sigs[v.sig] <= 3 and len(res.violations) < self.max_violations:
                     res.violations.append(v)
+            if slow >= 2:
+                break
         res.seconds = time.time() - t0
         return res
 
@@ -93,9 +104,28 @@ class BoundedCheck:
         harness) turned into a violation of 'the operation completes' for this case.  An exception raised by the harness's own code
         still propagates and ends as a checker error."""
         import os
+        import signal
         import traceback
+
+        class _CaseTimeout(Exception):
+            pass
+
+        def _on_alarm(signum, frame):
+            raise _CaseTimeout()
+        limit = float(getattr(self, 'case_timeout_s', 0) or os.environ.get('VERIF_CASE_TIMEOUT_S', '30'))
+        old_handler = None
+        try:
+            old_handler = signal.signal(signal.SIGALRM, _on_alarm)
+            signal.setitimer(signal.ITIMER_REAL, limit)
+        except (ValueError, OSError):       # not in the main thread: no per-case limit
+            old_handler = None
         try:
             return self.check(case, res)
+        except _CaseTimeout:
+            # every operation the checks run on their small inputs takes milliseconds on the unchanged library: a case that is still running after
+            # `limit` seconds does not terminate in any useful sense (the properties that speak of termination: C13; everywhere else: completes)
+            return [Violation('the operation terminates (a small input is dealt with in well under a second on the unchanged library)', f'{self.name}.does-not-terminate',
+                              case, f'< {limit:g} s', f'still running after {limit:g} s')]
         except Exception as ex:  # noqa: BLE001
             root = os.path.realpath(os.path.join(os.environ.get('FSIC_REPO', '/repo'), 'fsic'))
             frames = traceback.extract_tb(ex.__traceback__)
@@ -106,6 +136,13 @@ class BoundedCheck:
             return [Violation('the operation completes as on the unchanged library (no unexpected exception out of fsic)',
                               f'{self.name}.unexpected-exception:{type(ex).__name__}:{f.name}', case, 'completes',
                               f'{type(ex).__name__}: {str(ex)[:80]} at {os.path.basename(f.filename)}:{f.name}')]
+        finally:
+            if old_handler is not None:
+                try:
+                    signal.setitimer(signal.ITIMER_REAL, 0)
+                    signal.signal(signal.SIGALRM, old_handler)
+                except (ValueError, OSError):
+                    pass
 
     def replay(self, case) -> List[Violation]:
         return self.guarded_check(case, BoundedResult(self.name, 'replay'))
